@@ -166,6 +166,57 @@ def run_engine_reduced(case):
     return {'fresh_reduced': out}
 
 
+def run_legacy_case(case):
+    """Legacy CSV rules (merchant_categories.csv: Pattern,Merchant,Category,Subcategory,Tags) with dynamic {expr} tags that cannot be
+    evaluated, through get_all_rules + normalize_merchant and through parse_generic_csv. 'reduced' = the same file without those tags."""
+    d = tempfile.mkdtemp(dir=case['workdir'])
+    rules_path = os.path.join(d, 'merchant_categories.csv')
+    csv_path = os.path.join(d, 'data.csv')
+    with open(csv_path, 'w', newline='') as f:
+        w = csv.writer(f)
+        w.writerow(['Date', 'Description', 'Amount'])
+        for t in case['txns']:
+            w.writerow([t['date'], t['description'], f"{t['amount']:.2f}"])
+    spec = parse_format_string('{date:%Y-%m-%d},{description},{amount}')
+    out = {}
+    # the comparison with the reduced file is meaningful only when each removed tag really cannot be evaluated, for every
+    # transaction (decided with the public evaluator entry point)
+    all_fail = True
+    for _, tag in case['bad_tags']:
+        for t in case['txns']:
+            txn = {'description': t['description'], 'amount': t['amount'], 'date': datetime.date.fromisoformat(t['date']), 'source': 'S'}
+            try:
+                EP.evaluate_transaction(tag[1:-1], txn)
+                all_fail = False
+            except EP.ExpressionError:
+                pass
+            except BaseException:  # noqa
+                pass
+    out['all_fail'] = all_fail
+    for label in ('full', 'reduced'):
+        with open(rules_path, 'w', newline='') as f:
+            w = csv.writer(f)
+            w.writerow(['Pattern', 'Merchant', 'Category', 'Subcategory', 'Tags'])
+            for i, row in enumerate(case['rows']):
+                tags = [t for t in row[4] if not (label == 'reduced' and [i, t] in case['bad_tags'])]
+                w.writerow(row[:4] + ['|'.join(tags)])
+        MU._cached_engine = None
+
+        def go():
+            rules = MU.get_all_rules(rules_path)
+            direct = []
+            for t in case['txns']:
+                m = MU.normalize_merchant(t['description'], rules, amount=t['amount'],
+                                          txn_date=datetime.date.fromisoformat(t['date']), data_source='S')
+                direct.append([m[0], m[1], m[2], sorted({noaddr(x) for x in ((m[3] or {}).get('tags') or [])})])
+            txns = PA.parse_generic_csv(csv_path, spec, rules, source_name='S')
+            rows = sorted([t['description'], t['merchant'], t['category'], t['subcategory'], sorted({noaddr(x) for x in t.get('tags', [])})]
+                          for t in txns)
+            return {'direct': direct, 'rows': rows}
+        out[label] = guarded(go)
+    return out
+
+
 def run_rows_case(case):
     """parse_generic_csv with a rules engine containing ill-typed rules: no row and no source may be lost."""
     d = tempfile.mkdtemp(dir=case['workdir'])
@@ -276,6 +327,8 @@ def main():
         try:
             if k == 'engine':
                 res.append(run_engine_case(case))
+            elif k == 'legacy':
+                res.append(run_legacy_case(case))
             elif k == 'engine_reduced':
                 res.append(run_engine_reduced(case))
             elif k == 'rows':
